@@ -17,30 +17,31 @@ import (
 // table), phase 3 encodes.
 
 type c11Opts struct {
-	tables        int
-	maxDepth      int
-	itemsPerBlock int
-	absNames      bool // \NAME, \_SB_.NAME declarations
-	devPathNames  bool // \DEV0.NAME, \_SB_.DEV0.NAME declarations
-	siblingNames  bool // DEV0.NAME declarations
-	caretNames    bool // ^NAME inside Scope(\_SB_) blocks
-	scopeDirs     bool
-	scopeInDevice bool
-	forwardConts  bool // containers declared after objects that are relocated into them
-	fields        bool
-	indexFields   bool
-	bankFields    bool
-	connections   bool
-	bodies        bool
-	calls         bool
-	nestedCalls   bool // calls as arguments of calls / operators
-	deferred      bool // While, Buffer with computed size
-	deferredNames bool // names/calls inside deferred blocks
-	packages      bool
-	localDecls    bool // Name()/CreateField inside method bodies
-	bigPkg        bool // force 2/3/4-byte package length encodings
-	maxStmts      int
-	maxExprDepth  int
+	tables         int
+	maxDepth       int
+	itemsPerBlock  int
+	absNames       bool // \NAME, \_SB_.NAME declarations
+	devPathNames   bool // \DEV0.NAME, \_SB_.DEV0.NAME declarations
+	siblingNames   bool // DEV0.NAME declarations
+	caretNames     bool // ^NAME inside Scope(\_SB_) blocks
+	scopeDirs      bool
+	scopeInDevice  bool
+	forwardConts   bool // containers declared after objects that are relocated into them
+	fields         bool
+	indexFields    bool
+	bankFields     bool
+	connections    bool
+	bodies         bool
+	calls          bool
+	nestedCalls    bool // calls as arguments of calls / operators
+	deferred       bool // While, Buffer with computed size
+	deferredNames  bool // names/calls inside deferred blocks
+	packages       bool
+	localDecls     bool // Name()/CreateField inside method bodies
+	nestedDeferred bool // If/Else/While nested inside deferred blocks (restricted to what open finding K9 leaves intact)
+	bigPkg         bool // force 2/3/4-byte package length encodings
+	maxStmts       int
+	maxExprDepth   int
 }
 
 func c11DefaultOpts(r *vlib.Rand) *c11Opts {
@@ -50,7 +51,7 @@ func c11DefaultOpts(r *vlib.Rand) *c11Opts {
 		scopeDirs: r.Chance(4, 5), scopeInDevice: r.Chance(1, 2), forwardConts: r.Chance(2, 3),
 		fields: r.Chance(3, 4), indexFields: r.Chance(1, 2), bankFields: r.Chance(1, 2), connections: r.Chance(1, 2),
 		bodies: r.Chance(5, 6), calls: r.Chance(5, 6), nestedCalls: r.Chance(3, 4),
-		deferred: r.Chance(3, 4), deferredNames: r.Chance(3, 4), packages: r.Chance(3, 4), localDecls: r.Chance(2, 3),
+		deferred: r.Chance(3, 4), deferredNames: r.Chance(3, 4), packages: r.Chance(3, 4), localDecls: r.Chance(2, 3), nestedDeferred: r.Chance(2, 3),
 		bigPkg: r.Chance(1, 3), maxStmts: r.Range(1, 6), maxExprDepth: r.Range(1, 4),
 	}
 	c11ApplyOverride(o)
@@ -63,7 +64,7 @@ func c11ApplyOverride(o *c11Opts) {
 	flags := map[string]*bool{"absNames": &o.absNames, "devPathNames": &o.devPathNames, "siblingNames": &o.siblingNames, "caretNames": &o.caretNames,
 		"scopeDirs": &o.scopeDirs, "scopeInDevice": &o.scopeInDevice, "fields": &o.fields, "indexFields": &o.indexFields, "bankFields": &o.bankFields, "connections": &o.connections,
 		"bodies": &o.bodies, "calls": &o.calls, "nestedCalls": &o.nestedCalls, "deferred": &o.deferred, "deferredNames": &o.deferredNames,
-		"packages": &o.packages, "localDecls": &o.localDecls, "bigPkg": &o.bigPkg}
+		"packages": &o.packages, "localDecls": &o.localDecls, "bigPkg": &o.bigPkg, "nestedDeferred": &o.nestedDeferred}
 	ints := map[string]*int{"tables": &o.tables, "maxDepth": &o.maxDepth, "itemsPerBlock": &o.itemsPerBlock, "maxStmts": &o.maxStmts, "maxExprDepth": &o.maxExprDepth}
 	apply := func(list string, only bool) {
 		if list == "" {
@@ -93,16 +94,16 @@ func c11ApplyOverride(o *c11Opts) {
 }
 
 type c11Gen struct {
-	r      *vlib.Rand
-	o      *c11Opts
-	root   *c11Obj
-	predef []*c11Obj
-	tables [][]*c11Item
-	table  int
-	all    []*c11Obj // every declared object, declaration order
-	pend   []*c11Obj // forward containers still to be emitted at the end of the current table's root block
-	feat   map[string]int
-	calls  []*c11Expr
+	r         *vlib.Rand
+	o         *c11Opts
+	root      *c11Obj
+	predef    []*c11Obj
+	tables    [][]*c11Item
+	table     int
+	all       []*c11Obj // every declared object, declaration order
+	pend      []*c11Obj // forward containers still to be emitted at the end of the current table's root block
+	feat      map[string]int
+	calls     []*c11Expr
 	ambiguous bool
 	// names of containers that a Scope directive refers to by a single segment: the parser
 	// resolves such targets while relocations may still be pending (open finding K7), so the
@@ -498,14 +499,14 @@ func (g *c11Gen) genItems(lex *c11Obj, lexKind int, depth int) []*c11Item {
 // phase 2: data objects and method bodies
 
 type c11Ctx struct {
-	g      *c11Gen
-	scope  *c11Obj // namespace scope for name resolution (the method, or the scope holding a data object)
-	argc   int
-	strict bool // inside a deferred block (While / Buffer size)
-	table  int
+	g        *c11Gen
+	scope    *c11Obj // namespace scope for name resolution (the method, or the scope holding a data object)
+	argc     int
+	strict   bool // inside a deferred block (While / Buffer size)
+	table    int
 	inMethod bool
-	maxIdx int  // when > 0: only objects declared before g.all[maxIdx] may be named (load-time evaluated data)
-	inIf   bool // inside the predicate or body of an If that is parsed in the first pass (open finding K6)
+	maxIdx   int  // when > 0: only objects declared before g.all[maxIdx] may be named (load-time evaluated data)
+	inIf     bool // inside the predicate or body of an If that is parsed in the first pass (open finding K6)
 }
 
 // refName returns how to write a reference to target from ctx.scope, or nil.
@@ -767,7 +768,7 @@ func (x *c11Ctx) stmts(depth int, top bool) []*c11Expr {
 	for i := 0; i < n; i++ {
 		k := r.Intn(20)
 		switch {
-		case k < 3 && depth < 3 && !x.strict: // (open finding K9) no nested blocks inside deferred blocks
+		case k < 3 && depth < 3 && (!x.strict || x.g.o.nestedDeferred): // inside deferred blocks see closeBlock (open finding K9)
 			sub := *x
 			sub.inIf = sub.inIf || !x.strict
 			e := &c11Expr{kind: c11EIf, args: []*c11Expr{sub.expr(1)}}
@@ -783,13 +784,16 @@ func (x *c11Ctx) stmts(depth int, top bool) []*c11Expr {
 				out = append(out, el)
 				x.g.feat["else"]++
 			}
-		case k < 5 && depth < 3 && x.g.o.deferred && !x.strict:
+		case k < 5 && depth < 3 && x.g.o.deferred && (!x.strict || x.g.o.nestedDeferred):
 			sub := *x
 			sub.strict = true
 			e := &c11Expr{kind: c11EWhile, args: []*c11Expr{sub.expr(1)}}
 			e.body = sub.stmts(depth+1, false)
 			out = append(out, e)
 			x.g.feat["while"]++
+			if x.strict {
+				x.g.feat["while_in_deferred_block"]++
+			}
 		case k < 8:
 			if c := x.call(0); c != nil {
 				out = append(out, c)
@@ -835,7 +839,37 @@ func (x *c11Ctx) stmts(depth int, top bool) []*c11Expr {
 		}
 		x.g.feat["noop_padding"]++
 	}
+	if x.strict {
+		// (open finding K9) inside a deferred block the package end of a nested block is only popped when the
+		// block's last statement ends in a TermArg; everything after any other nested block is dropped. The
+		// population keeps to what the parser handles: a nested block that is followed by anything ends in such
+		// a statement, a nested block in last position is left as generated.
+		for i, e := range out {
+			if c11IsBlock(e) && i < len(out)-1 {
+				x.closeBlock(e)
+				x.g.feat["nested_block_followed_in_deferred_block"]++
+			}
+		}
+	}
 	return out
+}
+
+func c11IsBlock(e *c11Expr) bool {
+	return e.kind == c11EIf || e.kind == c11EElse || e.kind == c11EWhile
+}
+
+// closeBlock makes the body of a nested block end in a statement whose last operand is a TermArg.
+func (x *c11Ctx) closeBlock(e *c11Expr) {
+	last := e.body[len(e.body)-1]
+	if c11IsBlock(last) {
+		x.closeBlock(last) // it is about to be followed by a statement
+	}
+	if last.kind == c11EOp && last.spec != nil && len(last.spec.args) > 0 && last.spec.args[len(last.spec.args)-1] == c11AT {
+		return
+	}
+	sub := *x
+	sub.strict = true
+	e.body = append(e.body, sub.opExpr(c11OpByName([]string{"Sleep", "Stall", "Return", "Signal"}[x.g.r.Intn(4)]), 1))
 }
 
 func (g *c11Gen) fillTable(t int) {
